@@ -5,6 +5,7 @@ import (
 	"fmt"
 	"os"
 	"runtime"
+	"runtime/metrics"
 	"sync"
 	"sync/atomic"
 	"syscall"
@@ -186,7 +187,17 @@ var HeapLimit uint64 = 3 << 30
 
 func init() {
 	go func() {
-		var ms runtime.MemStats
+		// runtime/metrics instead of runtime.ReadMemStats: no stop-the-world, so
+		// polling ten times a second costs next to nothing (the blocked-call
+		// detection of C07 relies on an idle process looking idle)
+		sample := []metrics.Sample{{Name: "/memory/classes/heap/objects:bytes"}}
+		heapNow := func() uint64 {
+			metrics.Read(sample)
+			if sample[0].Value.Kind() != metrics.KindUint64 {
+				return 0
+			}
+			return sample[0].Value.Uint64()
+		}
 		var trackSt int64
 		var base uint64
 		for {
@@ -196,14 +207,14 @@ func init() {
 				trackSt = 0
 				continue
 			}
-			runtime.ReadMemStats(&ms)
+			heap := heapNow()
 			if st != trackSt {
 				// first sight of this call: what the harness (model, snapshots,
 				// earlier results) holds already is not the call's doing
-				trackSt, base = st, ms.HeapAlloc
+				trackSt, base = st, heap
 				continue
 			}
-			if ms.HeapAlloc < base || ms.HeapAlloc-base < HeapLimit {
+			if heap < base || heap-base < HeapLimit {
 				continue
 			}
 			w := currentCase.Load()
@@ -211,7 +222,7 @@ func init() {
 				continue
 			}
 			r := Replay{Check: w.check, Kind: "bounded", Calls: w.calls,
-				Message: fmt.Sprintf("the heap grew by %d MiB while one library call was running", (ms.HeapAlloc-base)>>20)}
+				Message: fmt.Sprintf("the heap grew by %d MiB while one library call was running", (heap-base)>>20)}
 			if w.kind != "" {
 				r.Kind, r.Extra = w.kind, w.extra
 			}
